@@ -349,7 +349,8 @@ FSPEC = ["", ">", ">10", "^8", ".2f", "x", " ", "0>5", "{{", "\\n", "é"]
 class Gen:
     """grammar-directed generator of programs (as trees)"""
 
-    def __init__(self, rng, fstrings=True, depth=4, debug=True):
+    def __init__(self, rng, fstrings=True, depth=4, debug=True, rmacros=False):
+        self.rmacros = rmacros  # calls of the user-defined reader macros of `macro_reader`
         self.rng = rng
         self.fstrings = fstrings
         self.maxdepth = depth
@@ -369,8 +370,25 @@ class Gen:
             s = "q" + s
         return ("ident", s)
 
+    def rmacro(self):
+        r = self.rng
+        tag = r.choice("RT|K")
+        if tag == "R":
+            arg = " " * r.choice([1, 1, 2]) + "".join(r.choice("0123456789abcdefABCDEF") for _ in range(6))
+        elif tag == "T":
+            arg = r.choice([" ", "\n", "  "]) + r.choice("abcxyz()\";") + "".join(r.choice("abcxyz()\"; ") for _ in range(2))
+        elif tag == "|":
+            arg = " " + "".join(r.choice("abc ()[]\";'#\n") for _ in range(r.randrange(0, 8))) + "|"
+        else:
+            arg = " " + "".join(r.choice("0123456789") for _ in range(r.randrange(1, 5))) + ";"
+        return ("rmacro", tag, arg)
+
     def atom(self):
         r = self.rng
+        if self.rmacros and r.random() < 0.3:
+            if r.random() < 0.8:
+                return self.rmacro()
+            return ("prefix", "#P", [([("ws", " ")], self.atom()), ([("ws", r.choice([" ", "\n"]))], self.atom())])
         x = r.random()
         if x < 0.5:
             return self.ident()
@@ -607,6 +625,15 @@ class Render:
             self.stack.pop()
             self.spans.append((start, len(self.out), node))
             self.form_done()
+        elif k == "rmacro":
+            # "#" tag argument: the macro consumes its argument itself (getn / chars / peeking)
+            self.guard("#")
+            start = len(self.out)
+            self.stack.append(["delim", "rmacro"])
+            self.put("#" + node[1] + node[2])
+            self.stack.pop()
+            self.spans.append((start, len(self.out), node))
+            self.form_done()
         elif k == "seq":
             self.guard(node[1][0])
             start = len(self.out)
@@ -787,3 +814,48 @@ CORPUS = ["", " ", "\n", "(", ")", "(a", "(a b)", "'", "'a", "#", "# a", "#_", "
           "~", "~@", "~@a", "~ @a", "~@ a", "`a", ";", ";a", ";a\nb", "a;b\nc", "(;a\n)", "(a . b)", "{a}", "#{a}", "#(a)", "#()", "#{",
           "a\r\nb", "a\x0bb", "a\x0cb", "a\x1cb", "\ufeffa", "a\x00", "(]", "[)", "(a))", "]", "}", "#]", "#)", '#"a"', "#;", "#a", "#\n",
           "#\xa0", "#\u2028a", "#!a\n", "(" * 60 + ")" * 60, "'" * 50 + "a", "#_" * 3 + " a b c d", "#^ #^ a b c", "#* #** a"]
+
+
+def macro_reader():
+    """a fresh HyReader with five user-defined reader macros that take their arguments with the documented
+    Reader methods:  #R rrggbb (slurp_space + getn 6)   #T xyz (getn 3)   #| text| (chars until "|")
+    #K digits; (peeking to the ";", then getn)   #P form form (parse_one_form twice)"""
+    from hy.reader.hy_reader import HyReader
+    from hy.models import Expression, Integer, String, Symbol, Tuple
+    R = HyReader()
+
+    def rgb(self, key):
+        self.slurp_space()
+        d = self.getn(6)
+        return Tuple([Integer(int(d[i:i + 2], 16)) for i in (0, 2, 4)])
+
+    def tla(self, key):
+        self.slurp_space()
+        return String(self.getn(3))
+
+    def bar(self, key):
+        out = []
+        for c in self.chars():
+            if c == "|":
+                break
+            out.append(c)
+        return String("".join(out))
+
+    def count(self, key):
+        self.slurp_space()
+        n = 0
+        for c in self.peeking():
+            if c == ";":
+                break
+            n += 1
+        d = self.getn(n)
+        self.getc()
+        return Integer(int(d))
+
+    def pair(self, key):
+        a = self.parse_one_form()
+        b = self.parse_one_form()
+        return Expression([Symbol("pair"), a, b])
+
+    R.reader_macros.update({"R": rgb, "T": tla, "|": bar, "K": count, "P": pair})
+    return R
